@@ -32,7 +32,8 @@
 (* Constants selecting the code shape (regression variants):               *)
 (*   FailCleanup       "code": the outer handler of start() only calls     *)
 (*                     _stop_indication_delivery(immediate=True) (pinned   *)
-(*                     tree); "full": it first stops the listener threads  *)
+(*                     tree); "full": it first stops the listener threads; *)
+(*                     "none": no outer handler (before pywbem 1.9)        *)
 (*   CloseOnCertFail   FALSE: the HTTPS server object whose certificate    *)
 (*                     could not be loaded is dropped unclosed (pinned)    *)
 (*   ClearRobust       FALSE: discard loop `while not empty(): get(block=  *)
@@ -40,7 +41,7 @@
 (*   StopGuard         TRUE: `if self._http_server:` guards (pinned)       *)
 (*   DupCheck          TRUE: `if callback not in self._callbacks` (pinned) *)
 (*   FailStopsDelivery TRUE: the EADDRINUSE path stops the callback thread *)
-(*                     (pinned; FALSE = before pywbem 1.9)                 *)
+(*                     itself (pinned)                                     *)
 (***************************************************************************)
 EXTENDS ListenerLifeReq
 
@@ -96,7 +97,7 @@ define {
          cb_threads |-> IF cbAlive THEN 1 ELSE 0,
          srv_threads |-> Cardinality({p \in PortNames : thr[p]}),
          open_srv |-> Cardinality({p \in PortNames : srv[p] # "none"}) + leaked,
-         logger_ok |-> TRUE]
+         logger_ok |-> TRUE, consts_ok |-> TRUE]
   Ev(ev) == [E0 EXCEPT !.ev = ev]
   ReqEv(ev, s, n, kind) == [E0 EXCEPT !.ev = ev, !.s = s, !.n = n, !.kind = kind]
   DeliverEv(c, it) == [E0 EXCEPT !.ev = "deliver", !.c = c, !.s = it[1],
@@ -166,7 +167,8 @@ ST2s:    srvSet["http"] := TRUE; thr["http"] := TRUE; srv["http"] := "up";
      };
 ST3: if ("https" \in Cfg /\ ~srvSet["https"]) {
        if (env.busy_https) {
-         if (FailStopsDelivery) { call StopDelivery(FALSE) };
+         if (FailCleanup = "full") { call StopListeners() };
+ST3d:    if (FailStopsDelivery) { call StopDelivery(FALSE) };
 ST3f:    exc := "ListenerPortError"; goto STX;
        } else {
          srv["https"] := "bound";
@@ -180,8 +182,9 @@ ST3c:    if (env.bad_cert) {                      \* load_cert_chain fails
        };
      };
 ST4: return;
-STX: if (FailCleanup = "full") { call StopListeners() };   \* except Exception:
-STX2: call StopDelivery(TRUE);
+STX: if (FailCleanup = "none") { return }         \* no outer handler
+     else if (FailCleanup = "full") { call StopListeners() };
+STX2: call StopDelivery(TRUE);                    \* except Exception:
 STX3: return;
 }
 
@@ -260,7 +263,7 @@ E0 == [ev |-> "", op |-> op, c |-> carg, busy_http |-> env.busy_http,
        cb_threads |-> IF cbAlive THEN 1 ELSE 0,
        srv_threads |-> Cardinality({p \in PortNames : thr[p]}),
        open_srv |-> Cardinality({p \in PortNames : srv[p] # "none"}) + leaked,
-       logger_ok |-> TRUE]
+       logger_ok |-> TRUE, consts_ok |-> TRUE]
 Ev(ev) == [E0 EXCEPT !.ev = ev]
 ReqEv(ev, s, n, kind) == [E0 EXCEPT !.ev = ev, !.s = s, !.n = n, !.kind = kind]
 DeliverEv(c, it) == [E0 EXCEPT !.ev = "deliver", !.c = c, !.s = it[1],
@@ -538,24 +541,36 @@ ST2s(self) == /\ pc[self] = "ST2s"
 ST3(self) == /\ pc[self] = "ST3"
              /\ IF "https" \in Cfg /\ ~srvSet["https"]
                    THEN /\ IF env.busy_https
-                              THEN /\ IF FailStopsDelivery
-                                         THEN /\ /\ immediate' = [immediate EXCEPT ![self] = FALSE]
-                                                 /\ stack' = [stack EXCEPT ![self] = << [ procedure |->  "StopDelivery",
-                                                                                          pc        |->  "ST3f",
-                                                                                          immediate |->  immediate[self] ] >>
-                                                                                      \o stack[self]]
-                                              /\ pc' = [pc EXCEPT ![self] = "SD0"]
-                                         ELSE /\ pc' = [pc EXCEPT ![self] = "ST3f"]
-                                              /\ UNCHANGED << stack, immediate >>
+                              THEN /\ IF FailCleanup = "full"
+                                         THEN /\ stack' = [stack EXCEPT ![self] = << [ procedure |->  "StopListeners",
+                                                                                       pc        |->  "ST3d" ] >>
+                                                                                   \o stack[self]]
+                                              /\ pc' = [pc EXCEPT ![self] = "SL1"]
+                                         ELSE /\ pc' = [pc EXCEPT ![self] = "ST3d"]
+                                              /\ stack' = stack
                                    /\ srv' = srv
                               ELSE /\ srv' = [srv EXCEPT !["https"] = "bound"]
                                    /\ pc' = [pc EXCEPT ![self] = "ST3c"]
-                                   /\ UNCHANGED << stack, immediate >>
+                                   /\ stack' = stack
                    ELSE /\ pc' = [pc EXCEPT ![self] = "ST4"]
-                        /\ UNCHANGED << srv, stack, immediate >>
+                        /\ UNCHANGED << srv, stack >>
              /\ UNCHANGED << q, qref, cbSet, stopEv, cbAlive, srvSet, thr, 
                              leaked, inH, cbs, obs, ops, op, env, carg, exc, 
-                             item, ci, n, rf >>
+                             immediate, item, ci, n, rf >>
+
+ST3d(self) == /\ pc[self] = "ST3d"
+              /\ IF FailStopsDelivery
+                    THEN /\ /\ immediate' = [immediate EXCEPT ![self] = FALSE]
+                            /\ stack' = [stack EXCEPT ![self] = << [ procedure |->  "StopDelivery",
+                                                                     pc        |->  "ST3f",
+                                                                     immediate |->  immediate[self] ] >>
+                                                                 \o stack[self]]
+                         /\ pc' = [pc EXCEPT ![self] = "SD0"]
+                    ELSE /\ pc' = [pc EXCEPT ![self] = "ST3f"]
+                         /\ UNCHANGED << stack, immediate >>
+              /\ UNCHANGED << q, qref, cbSet, stopEv, cbAlive, srvSet, srv, 
+                              thr, leaked, inH, cbs, obs, ops, op, env, carg, 
+                              exc, item, ci, n, rf >>
 
 ST3f(self) == /\ pc[self] = "ST3f"
               /\ exc' = "ListenerPortError"
@@ -591,13 +606,16 @@ ST4(self) == /\ pc[self] = "ST4"
                              immediate, item, ci, n, rf >>
 
 STX(self) == /\ pc[self] = "STX"
-             /\ IF FailCleanup = "full"
-                   THEN /\ stack' = [stack EXCEPT ![self] = << [ procedure |->  "StopListeners",
-                                                                 pc        |->  "STX2" ] >>
-                                                             \o stack[self]]
-                        /\ pc' = [pc EXCEPT ![self] = "SL1"]
-                   ELSE /\ pc' = [pc EXCEPT ![self] = "STX2"]
-                        /\ stack' = stack
+             /\ IF FailCleanup = "none"
+                   THEN /\ pc' = [pc EXCEPT ![self] = Head(stack[self]).pc]
+                        /\ stack' = [stack EXCEPT ![self] = Tail(stack[self])]
+                   ELSE /\ IF FailCleanup = "full"
+                              THEN /\ stack' = [stack EXCEPT ![self] = << [ procedure |->  "StopListeners",
+                                                                            pc        |->  "STX2" ] >>
+                                                                        \o stack[self]]
+                                   /\ pc' = [pc EXCEPT ![self] = "SL1"]
+                              ELSE /\ pc' = [pc EXCEPT ![self] = "STX2"]
+                                   /\ stack' = stack
              /\ UNCHANGED << q, qref, cbSet, stopEv, cbAlive, srvSet, srv, thr, 
                              leaked, inH, cbs, obs, ops, op, env, carg, exc, 
                              immediate, item, ci, n, rf >>
@@ -621,9 +639,9 @@ STX3(self) == /\ pc[self] = "STX3"
                               exc, immediate, item, ci, n, rf >>
 
 Start(self) == ST0(self) \/ ST1(self) \/ ST1b(self) \/ ST2(self)
-                  \/ ST2f(self) \/ ST2s(self) \/ ST3(self) \/ ST3f(self)
-                  \/ ST3c(self) \/ ST4(self) \/ STX(self) \/ STX2(self)
-                  \/ STX3(self)
+                  \/ ST2f(self) \/ ST2s(self) \/ ST3(self) \/ ST3d(self)
+                  \/ ST3f(self) \/ ST3c(self) \/ ST4(self) \/ STX(self)
+                  \/ STX2(self) \/ STX3(self)
 
 MI == /\ pc["main"] = "MI"
       /\ obs' = Run(obs, InitEvs)
